@@ -75,7 +75,11 @@ func c03SQL(cfg c03Cfg) string {
 	case "expr":
 		return fmt.Sprintf("SELECT count(*) AS n, sum(v + w) AS s1, sum(v * 2) AS s2, sum((v - 1) * 2) AS s3, sum(d.x) AS s4, avg(d.x) AS a4, max(v + w) AS m1, count(v * 2) AS c2 FROM stream GROUP BY CountingWindow(%d)", cfg.N)
 	case "groups":
-		return "SELECT k, count(*) AS n, count(v) AS c, sum(v) AS s, avg(v) AS a, min(v) AS mi, max(v) AS ma, median(v) AS med, first_value(v) AS fv, last_value(v) AS lv, collect(v) AS col FROM stream GROUP BY k, TumblingWindow('2s') WITH (TIMESTAMP='ts', TIMEUNIT='ms')"
+		// every aggregate of the property at once, two groups in one batch (per-group state must not be shared);
+		// stddev is left out here (known finding on "main"), its reference value is injected before the comparison
+		return "SELECT k, count(*) AS n, count(v) AS c, sum(v) AS s, avg(v) AS a, min(v) AS mi, max(v) AS ma, stddevs(v) AS sds, var(v) AS va, vars(v) AS vs, median(v) AS med, first_value(v) AS fv, last_value(v) AS lv, collect(v) AS col, deduplicate(v) AS dd, merge_agg(v) AS mg, " +
+			"percentile(v, 0) AS p0, percentile(v, 0.25) AS p25, percentile(v, 0.5) AS p50, percentile(v, 0.95) AS p95, percentile(v, 1) AS p100, nth_value(v, 1) AS nv1, nth_value(v, 2) AS nv2 " +
+			"FROM stream GROUP BY k, TumblingWindow('2s') WITH (TIMESTAMP='ts', TIMEUNIT='ms')"
 	}
 	return ""
 }
@@ -480,7 +484,15 @@ func (c03) Run(u fw.Unit) fw.Result {
 					if row["k"] == "b" {
 						vals = c03RefVals(sb)
 					}
-					if col, what := c03CheckMain(row, vals, false); col != "" {
+					if xs := ref.Usable(vals); len(xs) > 0 {
+						row["sd"] = ref.StdPop(xs)
+					} else {
+						row["sd"] = nil
+					}
+					if col, what := c03CheckMain(row, vals, true); col != "" {
+						a.fail(c03Sig(cfg, col, vals), fmt.Sprintf("group %v: %s", row["k"], what), cs, nil, row)
+					}
+					if col, what := c03CheckPct(row, vals); col != "" {
 						a.fail(c03Sig(cfg, col, vals), fmt.Sprintf("group %v: %s", row["k"], what), cs, nil, row)
 					}
 				}
